@@ -5,6 +5,7 @@ import (
 	"fmt"
 	"strings"
 	"sync/atomic"
+	"time"
 
 	"verif/internal/par"
 	"verif/internal/ref65816"
@@ -572,6 +573,17 @@ func runC14(r *report.Run) {
 		pdepth = 3
 	}
 	runs := c12Scenarios(pdepth, []int{1, 2}, budgets)
+	// long runs: budgets beyond the logger's reservation clamp ($100 cycles), on programs that loop
+	for _, prog := range [][]string{{"BRA -2"}, {"INX", "BRA -3"}, {"LDA #$1234", "PHA", "PLA", "BNE -3"}, {"DEX", "BNE -3", "STP"}} {
+		for _, start := range []uint32{0x7E2000, 0x008000} {
+			for _, b := range []uint64{0xFF, 0x100, 0x101, 300, 1000} {
+				for _, lg := range []int{1, 2} {
+					runs = append(runs, c12Run{Prog: prog, Start: start, Target: 0x7E3000, Budget: b, Logger: lg})
+				}
+			}
+		}
+	}
+	c12Watchdog(r, "C14", 120*time.Second)
 	worlds := make([]*c12World, par.Workers())
 	var executed, lines int64
 	par.For(len(runs), func(wk, i int) {
